@@ -19,7 +19,25 @@ def gen_e2e(ctx):
                     ops.append("disc:1@" + R(b"221 bye"))
                     yield eline(c, ops)
 
+def gen_e2e_reactive(ctx):
+    """cancelled uploads against a server that answers ABOR the way RFC 959 servers do (flag A): 426 + 226 while the upload is
+    still running, a single 226 if it had already seen the end of the data connection - the client must not end the data
+    connection before ABOR's replies are read"""
+    rng = ctx["rng"]
+    noop = "noop@" + R(b"200 ok")
+    abor = ",".join([R(b"426 aborted"), R(b"226 abor ok")])
+    for ver in (13, 12):
+        for tls in (1, 0):
+            for mode in "pa":
+                for rfc in (0, 1):
+                    c = cfg_str(mode=mode, rfc=rfc, ver=ver, tls=tls, prop="C02", verify="none")
+                    for verb in ("STOR", "APPE"):
+                        p = "put:%s:%s:g8.30000:p01@%s/%s/%s" % (verb, H(b"SECRETPATH04.bin"), setup(mode, rfc), ",".join([R(b"150 go"), "Drecv:-:c", "A"]), abor)
+                        yield eline(c, [connect(tls=bool(tls)), p, noop, "pwd@" + R(b"257 \"/\""), "disc:1@" + R(b"221 bye")])
+    ctx["scopes"].append("e2e: cancelled uploads (STOR, APPE) against a server whose answer to ABOR depends on whether the data connection has already ended x TLS 1.2 / 1.3 / plain x four methods")
+
 PROP = {"id": "C02", "stages": [{"name": "client", "target": "h_client", "gen": gen_c02, "shard": 12},
-                   {"name": "e2e", "target": "h_e2e", "gen": gen_e2e, "shard": 4}], "trivial_tags": ['short'],
+                   {"name": "e2e", "target": "h_e2e", "gen": gen_e2e, "shard": 4},
+                   {"name": "e2e-abor", "target": "h_e2e", "gen": gen_e2e_reactive, "shard": 4}], "trivial_tags": ['short'],
         "rule": 'random and directed histories of API calls (all calls, four data-connection methods, cancellation at several polls) against the scripted RFC-conformant server: in-memory control channel whose reply bytes are cut as scripted, real loopback data connections; the returned replies are compared with the replies the server generated during the call and the unread control bytes must be empty (or a lone LF). Non-trivial = a history with more than two calls; distinct = distinct scenario lines.',
         "assumptions": ["in-memory control transport (a socket_base subclass) stands in for the TCP control socket; data connections are real loopback TCP", "oracle values (read sizes, kernel-chosen ports, connect results) are taken from the implementation run"]}
